@@ -56,12 +56,10 @@ PROPS = {
         "units": [],
         "kani": [K("core", "split_first_meta_var_len5", "fix-template variable scanner vs the spelling table ($A/$$A single, $$$A multi, longest [A-Z_0-9]* name, digit-first/lower-case/lone sigils literal)", bound="strings over {$,A,a,_,1,space}, length <= 5"),
                  K("core", "split_first_meta_var_transform_len4", "same with a transform key", bound="length <= 4"),
-                 K("core", "create_template_len4", "create_template partitions the template exactly (fragments ++ spellings == template) and records the indentation in front of each slot", bound="templates over {$,A,space,newline,a}, length <= 4"),
-                 K("core", "get_indent_at_offset_len8", "indentation at an offset = run of SPACES after the last line break (tabs are text)", bound="bytes over {space,newline,a,tab}, length <= 8 (< MAX_LOOK_AHEAD)"),
-                 K("core", "extract_reinsert_identity_len4", "re-inserting an extracted range at its own indentation is the identity (self-rewrite is a no-op)", bound="text <= 4 bytes over {space,newline,a,tab}, every sub-range"),
-                 K("core", "indent_lines_shift_len4", "continuation lines keep their indentation relative to the first line, shifted from the source indent to the insertion indent", bound="lines <= 4 bytes, indents <= 1", tier="thorough")],
-        "decided": ["template scanner and indentation arithmetic, for the stated bounds only"],
-        "not_decided": ["replace_fixer / maybe_get_var (need a Node): substitution of captured text rests on T-node get_range", "transformation string_case / substring (planned)"],
+                 K("core", "get_indent_at_offset_len8", "indentation at an offset = run of SPACES after the last line break (tabs are text)", bound="bytes over {space,newline,a,tab}, length <= 8 (< MAX_LOOK_AHEAD)")],
+        "decided": ["template variable scanner (split_first_meta_var) and get_indent_at_offset, for the stated bounds only"],
+        "not_decided": ["create_template / indent_lines / remove_indent / extract_with_deindent: the harnesses written for them (kh/core/template.rs, kh/core/indent.rs) exhaust CBMC's memory even at 3-4 bytes (Vec<String>, Cow, split/strip_prefix adapters) and Verus rejects the iterator adapters: NOT decided",
+                        "replace_fixer / maybe_get_var (need a Node)", "string_case"],
         "assumptions": [],
     },
     "C08": {
@@ -89,9 +87,10 @@ PROPS = {
         "assumptions": ["tree_sitter::Point is a plain (row, column) carrier"],
     },
     "C11": {
-        "units": [("strictness", r"match_meta_var|match_leaf_meta_var"), "nth_child", "rewrite", "deserialize_env"],
+        "units": [("strictness", r"match_meta_var|match_leaf_meta_var"), "nth_child", "rewrite", "deserialize_env", "transformation"],
         "kani": [K("config", "numeric_position_exact", "numeric nthChild: no panic, no truncation", complete=True),
                  K("config", "parse_an_b_len4", "parse_an_b: no panic/overflow", bound="strings over {9,1,n,+,-,space}, length <= 4"),
+                 K("config", "used_vars_no_panic_len3", "Transformation::used_vars never panics (empty / multi-byte / sigil-less sources)", bound="every UTF-8 string of <= 3 bytes"),
                  K("config", "parse_an_b_len11", "parse_an_b: no overflow on 11-digit numbers", bound="digit strings over {9,1,n}, length <= 11", tier="thorough")],
         "decided": ["debug assertions of the leaf matcher are proof obligations (R5)", "nthChild parsing never overflows"],
         "not_decided": ["serde_yaml / regex / globset internals; stack depth for deeply nested YAML"],
@@ -122,8 +121,8 @@ PROPS = {
     },
     "C18": {
         "units": ["cli_print"],
-        "kani": [K("cli", "apply_rewrite_two_edits_len5", "apply_rewrite == old content with the accepted ranges substituted", bound="old text <= 5 bytes over {a,b,newline}, up to two ordered disjoint edits, replacements <= 2 bytes")],
-        "decided": ["Diff::generate: the CLI's edit (range, text) is NodeMatch::make_edit with the rule's Fixer", "apply_rewrite splices exactly the accepted ranges (bounded)"],
+        "kani": [],
+        "decided": ["Diff::generate: the CLI's edit (range, text) is NodeMatch::make_edit with the rule's Fixer", "apply_rewrite: the written content == old content with exactly the accepted (ordered, disjoint, in-bounds) ranges substituted (unbounded, Verus)"],
         "not_decided": ["process_diffs_interactive bookkeeping (generic over Printer; closures), files on disk, repeated invocations, injected languages"],
         "assumptions": ["String::from_utf8 on replacement bytes succeeds (UTF-8 sources and templates)"],
     },
@@ -140,8 +139,8 @@ PROPS = {
                  K("core", "split_first_meta_var_len5", "fix-template variable scanner vs the spelling table", bound="strings over {$,A,a,_,1,space}, length <= 5"),
                  K("config", "parse_an_b_len4", "parse_an_b vs reference An+B grammar", bound="strings over {9,1,n,+,-,space}, length <= 4"),
                  K("config", "numeric_position_exact", "numeric nthChild position", complete=True)],
-        "units": ["nth_child"],
-        "decided": ["extract_meta_var spelling table", "is_matched <=> exists n >= 0. i = A*n + B (unbounded, Verus)", "template variable scanner"],
+        "units": ["nth_child", ("transformation", r"resolve_char|Substring")],
+        "decided": ["substring == Python slice on characters (unbounded, Verus)", "extract_meta_var spelling table", "is_matched <=> exists n >= 0. i = A*n + B (unbounded, Verus)", "template variable scanner"],
         "not_decided": ["the hole appears in the parsed pattern tree of each of the 23 languages (needs the C parsers)"],
         "assumptions": [],
     },
